@@ -11,9 +11,21 @@ Variable id 0 is reserved for sqrt(3): s^2 is rewritten to 3 on the fly.
 from __future__ import annotations
 from math import gcd
 
+import time as _time
+
 S3 = 0
 ONE = {(): 1}
 ZERO = {}
+BUDGET = {'deadline': None, 'max_terms': 400000}
+
+
+class BudgetExceeded(Exception):
+    pass
+
+
+def set_budget(seconds):
+    BUDGET['deadline'] = None if seconds is None else _time.time() + seconds
+
 
 
 def padd(a, b):
@@ -86,7 +98,13 @@ def pmul(a, b):
         if not m1:
             return pscale(b, c1)
     r = {}
+    if len(a) * len(b) > 20000:
+        if len(a) * len(b) > 50 * BUDGET['max_terms']:
+            raise BudgetExceeded(f'polynomial product {len(a)} x {len(b)} terms')
+    dl = BUDGET['deadline']
     for m1, c1 in a.items():
+        if dl is not None and _time.time() > dl:
+            raise BudgetExceeded('normaliser time budget exceeded')
         for m2, c2 in b.items():
             m, f = mmul(m1, m2)
             v = r.get(m, 0) + c1 * c2 * f
